@@ -69,6 +69,7 @@ impl Family for C19Family {
         let failing_prf = r.chance(1, 6);
         // one run in six: registrations for two RPs by users who have the same handle at both
         let two_rps = r.chance(1, 6);
+        let store_errors = r.chance(1, 6);
         for a in 0..n_actors {
             let mut actor = gen_actor(&mut r);
             actor.hmac = if failing_prf { HmacCfg::WithoutUv } else { HmacCfg::None };
@@ -120,6 +121,11 @@ impl Family for C19Family {
                 };
                 let mut op = plain_op(kind);
                 op.yields = gen_yields(&mut r, 12, 3);
+                // now and then the store refuses one call of this ceremony (the wrappers must hand the
+                // error on and let go of the lock)
+                if store_errors && r.chance(1, 2) {
+                    op.faults.push(Fault { seam: *r.pick(&[SeamKind::Find, SeamKind::Save, SeamKind::Update]), nth: 0, status: *r.pick(&[0x28u8, 0x06, 0x7F]), sticky: false });
+                }
                 actor.ops.push(op);
             }
             c.actors.push(actor);
@@ -176,7 +182,7 @@ impl Family for C19Family {
         if scn.batch == "enumerated" {
             stats.count("enumerated_interleavings_judged", 1);
         }
-        for p in ["overlapping_assertions_same_credential", "stale_snapshot_written_back", "register_overlaps_assert", "three_actors", "silent_assertion_on_counter_credential", "failed_assertion_after_counter_write", "same_user_handle_registered_for_two_rps"] {
+        for p in ["overlapping_assertions_same_credential", "stale_snapshot_written_back", "register_overlaps_assert", "three_actors", "silent_assertion_on_counter_credential", "failed_assertion_after_counter_write", "same_user_handle_registered_for_two_rps", "store_error_under_shared_lock"] {
             stats.declare_probe(p);
         }
         if rec.panic.is_some() {
@@ -185,6 +191,9 @@ impl Family for C19Family {
         }
         if c.actors.len() == 3 {
             stats.probe("three_actors");
+        }
+        if rec.events.iter().any(|e| matches!(&e.ev, Ev::FindRet { injected: true, .. } | Ev::SaveRet { injected: true, .. } | Ev::UpdateRet { injected: true, .. })) {
+            stats.probe("store_error_under_shared_lock");
         }
         match &rec.outcome {
             Outcome2::Deadlock(tasks) => {
